@@ -16,5 +16,5 @@ for n in range(0, 6):
         JOBS.append(dict(name="expr.channel.n%d.i%d" % (n, idx), props=["C19", "C01"], kind="B",
             bound="channel-list body of exactly %d bytes over {1 2 - . : , ! @ blank a}, entry index %d, capacity 0..3 symbolic; unwinding assertions on" % (n, idx),
             harness="h_expr.c", entry="h_expr_channel", contracts=["common.h"], defines=["BODY=%d" % max(n, 1), "FIXN=%d" % n, "FIXI=%d" % idx], loops=False,
-            cbmc_flags=["--unwind", str(n + 6), "--unwindset", "SCPI_ErrorPushEx.0:12", "--unwinding-assertions"], tier=("quick" if n <= 3 else "thorough"), timeout=3000, cost=30, mem_gb=19, est_gb=10,
+            cbmc_flags=["--unwind", str(n + 6), "--unwindset", "SCPI_ErrorPushEx.0:12", "--unwinding-assertions"], tier=("quick" if n <= 3 else "thorough"), timeout=3000, cost=30, mem_gb=19, est_gb=9,
             what="real SCPI_ExprChannelListEntry over the real lexer == reference channel-list parser written from the statement"))
